@@ -26,6 +26,14 @@ PROPS = {
         "trusted_extra": ["Coq extraction to OCaml of model/BoolReduce.v (Require Import ExtrOcamlBasic only: bool, list, prod, option, unit, sumbool mapped to OCaml's; no Extract Constant) plus extract/driver_boolred.ml and the harness symx/src/corr_boolred.rs, which decides 'element is not zero' for each generated element"],
         "selfcheck": {"quick": 20, "thorough": 300},
     },
+    "C19": {
+        "claimed": True,
+        "technique": "Coq proof (computation, ring) over programs translated from the compiled generic code by symbolic execution; machine-integer semantics for integer colour components",
+        "level_text": "1982 entry points: every From impl between the 13 vector types (19 kind/size conversions, 5 (smaller, scalar) forms), the homogeneous point/direction constructors, every named swizzle and with_* setter, 57 unit/direction constants, shuffle_lo_hi and shuffled for ALL 256 masks on Vec4 and Rgba plus 256 out-of-range index tuples and the usize-broadcast masks, the eight fixed interleave/move shuffles, ShuffleMask4::new/from/to_indices/== for all 256 masks, all colour constructors, named colours, gray, inverted_rgb (an involution keeping alpha, by ring), average_rgb, ARGB/BGRA/BGR reorderings, ColorComponent::full for the 18 concrete component types, and the law Mat(n+1)::from(m) * Vec(n+1)::from(v) = Vec(n+1)::from(m*v) (zero fill and w=1 points, both layouts) are translated from the real code and proved for ALL element values in ANY commutative ring. For integer components of EVERY width inverted_rgb is proved overflow-free and involutive on the component range [0, full]. No unit test converts, shuffles or builds a colour.",
+        "level_note": "Out-of-range shuffle indices are covered by 256 concrete tuples per type (up to usize::MAX), not by a theorem over all usize. Known finding: signed component types with a negative component overflow in inverted_rgb (outside [0, full]). Trusted: Coq kernel; symx translator (re-run on every check, self-checked against f64 and, for the integer entries, against the same code on every i8/u8 input); Rust parametricity.",
+        "design_ref": "DESIGN.md section 7, C19",
+        "assumptions": ["scalar operations are exact commutative-ring operations", "ColorComponent::full() of the abstract component type is an arbitrary constant", "integer components: Rust fixed-width semantics of MachineInt.v (overflow panics with checks, wraps without)"],
+    },
     "C03": {
         "claimed": True,
         "technique": "Coq proof (computation + induction over operation sequences) over programs translated from the compiled generic code by symbolic execution",
